@@ -270,6 +270,9 @@ class TestFactory:
     def insert_random_statement(self, test_case: tc.TestCase, position: int) -> int:
         """Insert a randomly chosen accessible call at (roughly) *position*.
 
+        The insertion is undone and counts as a failure if the call together with
+        the statements it depends on grows the test case beyond the maximum length.
+
         Args:
             test_case: The test case to extend.
             position: The desired insertion position.
@@ -280,7 +283,18 @@ class TestFactory:
         accessible = self._test_cluster.get_random_accessible()
         if accessible is None:
             return -1
-        return self._emit_accessible(test_case, accessible, position, 0)
+        previous_statements = {id(statement) for statement in test_case.statements()}
+        inserted_position = self._emit_accessible(test_case, accessible, position, 0)
+        if test_case.size() > config.configuration.search_algorithm.chromosome_length:
+            # The call together with the statements it depends on does not fit into
+            # the maximum length: take all of them out again.
+            test_case.remove_statements_batch({
+                index
+                for index, statement in enumerate(test_case.statements())
+                if id(statement) not in previous_statements
+            })
+            return -1
+        return inserted_position
 
     def append_generic_accessible(
         self, test_case: tc.TestCase, accessible: gao.GenericAccessibleObject
